@@ -29,6 +29,42 @@ enum Case {
     /// By the statement the run fails at the first processed height whose prev-hash field is not the INDEXED hash of the
     /// preceding height, and passes if there is none (a resealed block alone is consistent).
     Multi { kinds: [u8; 4], start: Option<u64> },
+    /// the `nth` CompactSize inside the transactions of the block at `height` (input / output counts, script lengths) is
+    /// re-encoded in a wider form (0xfd / 0xfe / 0xff prefix) with the same value: the transaction still decodes to the same
+    /// fields, but its bytes - covered by the txid - have changed, so the merkle root no longer matches
+    Widen { height: u64, nth: usize, width: u8 },
+}
+
+/// Offsets (relative to the block start) of every one-byte CompactSize inside the legacy transactions of a serialised block.
+fn tx_varint_offsets(raw: &[u8]) -> Vec<usize> {
+    let mut v = Vec::new();
+    let mut p = 80;
+    let n_tx = raw[p] as usize;
+    p += 1;
+    for _ in 0..n_tx {
+        p += 4;
+        let n_in = raw[p] as usize;
+        v.push(p);
+        p += 1;
+        for _ in 0..n_in {
+            p += 36;
+            let l = raw[p] as usize;
+            v.push(p);
+            p += 1 + l + 4;
+        }
+        let n_out = raw[p] as usize;
+        v.push(p);
+        p += 1;
+        for _ in 0..n_out {
+            p += 8;
+            let l = raw[p] as usize;
+            v.push(p);
+            p += 1 + l;
+        }
+        p += 4;
+    }
+    assert_eq!(p, raw.len(), "legacy block layout");
+    v
 }
 
 fn chain_with(coin: &'static Coin, txs_per_block: usize, n_blocks: usize) -> ChainBuilder {
@@ -175,6 +211,18 @@ pub fn run() -> Report {
     for c in COINS.iter() {
         cases.push(Case::WrongGenesis { coin: c.name });
     }
+    // every CompactSize of every transaction of blocks 1..3, re-encoded in each wider form
+    {
+        let cb = chain_with(coin("bitcoin"), 2, 4);
+        for h in 1..4u64 {
+            let n = tx_varint_offsets(&cb.blocks[h as usize].ser()).len();
+            for nth in 0..n {
+                for width in [3u8, 5, 9] {
+                    cases.push(Case::Widen { height: h, nth, width });
+                }
+            }
+        }
+    }
     // all 4^4 combinations of per-block deviations, whole chain; --start 2 and 3 on those that deviate at or after the start
     for code in 0..256u32 {
         let kinds = [(code & 3) as u8, ((code >> 2) & 3) as u8, ((code >> 4) & 3) as u8, ((code >> 6) & 3) as u8];
@@ -184,9 +232,9 @@ pub fn run() -> Report {
             cases.push(Case::Multi { kinds, start: Some(3) });
         }
     }
-    rep.rule = "must pass: genesis,B(k),B(1) for k in 1..17,31,32,33,64,65 (every merkle-tree shape with an odd level up to depth 6) on bitcoin, k in {1,2,3,5} x --start {0,1,2} on all 8 coins, AuxPoW chains, sparse indexes at heights up to 2^40 with --start (pass, and fail with a flipped prev field); must fail at that height: every single-bit flip of prev-hash field, merkle field and tx bytes of every block of 4-block chains with 1/2/3 txs per block, prev-field flips of the first processed block under --start, block swaps, wrong block 0 for 8 coins; all 4^4 combinations of {intact, resealed, prev-field rewritten to the stored predecessor's hash, both} over heights 1..4 (x --start) judged by the statement's rule (fail at the first processed height whose prev field is not the indexed hash of the preceding height, else pass); non-trivial = distinct case (pass cases: exit 0 with model-equal output; fail cases: corrupted byte inside the processed range)".into();
+    rep.rule = "must pass: genesis,B(k),B(1) for k in 1..17,31,32,33,64,65 (every merkle-tree shape with an odd level up to depth 6) on bitcoin, k in {1,2,3,5} x --start {0,1,2} on all 8 coins, AuxPoW chains, sparse indexes at heights up to 2^40 with --start (pass, and fail with a flipped prev field); must fail at that height: every single-bit flip of prev-hash field, merkle field and tx bytes of every block of 4-block chains with 1/2/3 txs per block, prev-field flips of the first processed block under --start, block swaps, wrong block 0 for 8 coins; all 4^4 combinations of {intact, resealed, prev-field rewritten to the stored predecessor's hash, both} over heights 1..4 (x --start) judged by the statement's rule; every CompactSize inside a transaction re-encoded in a wider form with the same value (the txid covers the bytes); (fail at the first processed height whose prev field is not the indexed hash of the preceding height, else pass); non-trivial = distinct case (pass cases: exit 0 with model-equal output; fail cases: corrupted byte inside the processed range)".into();
     rep.bound = json!({"cases": cases.len(), "flip_chains": "4 blocks x {1,2,3} txs", "flip_density": "every bit", "txs_per_block": if thorough { "1,2,3,4,5,8" } else { "1,2,3" }});
-    rep.not_covered = vec!["multi-bit corruptions other than block swaps".into(), "witness bytes / marker / flag (not txid-covered; don't-care)".into()];
+    rep.not_covered = vec!["multi-bit corruptions other than block swaps, re-encodings and the per-block deviation combinations".into(), "witness bytes / marker / flag (not txid-covered; don't-care)".into()];
     let root = refmodel::world::scratch_root();
     let parts = par_fold(
         &cases,
@@ -357,6 +405,38 @@ pub fn run() -> Report {
                     acc.count("swap", 1);
                     if let Some((sig, detail)) = judge_fail(&r, *height) {
                         acc.disagree(&format!("{}:swap", sig), format!("{:?}: {}", c, detail), replay_case(&world, &spec, json!({"must": "fail", "height": height}), &r, &wk.dir));
+                    }
+                }
+                Case::Widen { height, nth, width } => {
+                    let btc = coin("bitcoin");
+                    let cb = chain_with(btc, 2, 4);
+                    let mut world = World::new(btc);
+                    for (i, b) in cb.blocks.iter().enumerate() {
+                        if i as u64 != *height {
+                            world.add_block(i as u64, i as u64, b);
+                            continue;
+                        }
+                        let raw = b.ser();
+                        let off = tx_varint_offsets(&raw)[*nth];
+                        let val = raw[off];
+                        let mut wide = raw[..off].to_vec();
+                        match width {
+                            3 => wide.extend([0xfd, val, 0]),
+                            5 => wide.extend([0xfe, val, 0, 0, 0]),
+                            _ => wide.extend([0xff, val, 0, 0, 0, 0, 0, 0, 0]),
+                        }
+                        wide.extend_from_slice(&raw[off + 1..]);
+                        let pos = world.place_raw(i as u64, &wide, wide.len() as u32);
+                        world.put_rec(&IndexRec { hash: b.hash(), client_version: 270000, height: i as u64, status: refmodel::world::ACTIVE, ntx: b.txs.len() as u64, file: i as u64, data_pos: pos, undo_pos: 9, header: b.header.ser() });
+                    }
+                    let spec = RunSpec::new("bitcoin", "csvdump").verify(true);
+                    let r = match wk.world_run(&world, &spec) {
+                        Ok(r) => r,
+                        Err(m) => return acc.machinery(m),
+                    };
+                    acc.count("compactsize-re-encoded", 1);
+                    if let Some((sig, detail)) = judge_fail(&r, *height) {
+                        acc.disagree(&format!("{}:compactsize-re-encoded", sig), format!("{:?}: {}", c, detail), replay_case(&world, &spec, json!({"must": "fail", "height": height}), &r, &wk.dir));
                     }
                 }
                 Case::Multi { kinds, start } => {
